@@ -799,12 +799,12 @@ _BTree_set(BTree *self, PyObject *keyarg, PyObject *value,
         assert(status == 1);    /* can be 2 only on deletes */
         if (SameType_Check(self, d->child)) {
             long max_size = _max_internal_size(self);
-            if (max_size < 0) return -1;
+            if (max_size < 0) goto Error;
             toobig = childlength > max_size;
         }
         else {
             long max_size = _max_leaf_size(self);
-            if (max_size < 0) return -1;
+            if (max_size < 0) goto Error;
             toobig = childlength > max_size;
         }
         if (toobig) {
@@ -1903,7 +1903,10 @@ BTree_byValue(BTree *self, PyObject *omin)
 
     COPY_VALUE_FROM_ARG(min, omin, copied);
     UNLESS(copied)
+    {
+        PER_UNUSE(self);
         return NULL;
+    }
 
     UNLESS (r=PyList_New(0))
         goto err;
